@@ -390,7 +390,10 @@ class RefSession(object):
         return [c for c in out if c]
 
     def send(self, data, chunks=None):
-        for c in (chunks if chunks is not None else self.chunks(data)):
+        cs = chunks if chunks is not None else self.chunks(data)
+        if len(cs) > 1:
+            self.w.net.fired('CLIENT_CHUNKED', len(cs) - 1)
+        for c in cs:
             self.sock.send(c)
 
     def send_frame(self, raw, chunks=None):
